@@ -12,6 +12,10 @@ CHECKS = [
   "text": "every string up to the stated length over a 19-symbol alphabet is used as s and as p; the language of Regexp(QuoteMeta(s)) and of Regexp(p) when HasMeta(p) is false is decided exactly by parsing the produced expression (must be ^literal$) and cross-checked by matching",
   "note": "regexp/syntax is trusted to parse the produced expression; ExtendedOperators mode is outside QuoteMeta's documented contract",
   "technique": "bounded exhaustive enumeration of inputs with exact language decision on the produced regexp"},
+ {"id": "C16", "level": "exploration",
+  "text": "every word up to the stated length over an 11-character brace alphabet plus 56 range/limit edge words: SplitBraces must keep the printed form and report true iff a BraceExp results; expand.Fields must equal bash 5.2's expansion; errors only above 16384 words",
+  "note": "bash 5.2.15 is the oracle; words ending in an unescaped backslash are excluded (line continuation); two narrow families are recorded as class findings",
+  "technique": "bounded exhaustive enumeration of inputs against bash as reference"},
 ]
 claimed = {c["id"] for c in CHECKS}
 NOT_APPLICABLE = [{"property_id": i, "reason": "check not built yet (work in progress, see DESIGN.md §9)"} for i in ALL if i not in claimed]
